@@ -235,15 +235,15 @@ structure B2MOK (ext : Nat → Nat) (dvars : List MVar) (mb : Mgr) (out : B2MOut
     ∀ u : Nat, 0 < ext u → (out.umap.lookup u).isSome = true
 
 /-- C15, conversion: for a BDD manager satisfying the reordering invariant (manager invariant,
-name maps, exact counts for the ledger `ext`, roots held) with dynamic reordering not enabled,
+name maps, exact counts for the ledger `ext`, roots held), dynamic reordering enabled or not,
 and a proper `dvars` (levels `0..n-1`, bit lists partitioning the declared variables),
 every successful `bdd_to_mdd` — for any recorded iteration orders — is correct. -/
-theorem bddToMdd_spec (ext : Nat → Nat) (mb : Mgr) (h : ReorderInv ext mb) (hoff : mb.lastLen = none)
+theorem bddToMdd_spec (ext : Nat → Nat) (mb : Mgr) (h : ReorderInv ext mb)
     (dvars : List MVar) (hd : DvarsOK mb.tbl dvars) (lev : Option (List Nat))
     (out : B2MOut) (mb' : Mgr) (hr : bddToMdd dvars lev mb = (.ok out, mb')) :
     B2MOK ext dvars mb out mb' := by
   obtain ⟨p, m2, ord, hp, ho, hloop⟩ := bddToMdd_unfold dvars lev mb out mb' hr
-  have P := b2mPrepare_spec ext mb h hoff dvars hd p m2 hp
+  have P := b2mPrepare_spec ext mb h dvars hd p m2 hp
   have hW2 := P.inv.inv.wf.toWF
   have hordm : ∀ u, u ∈ ord ↔ (m2.tbl.node? u).isSome = true := by
     intro u
@@ -251,17 +251,14 @@ theorem bddToMdd_spec (ext : Nat → Nat) (mb : Mgr) (h : ReorderInv ext mb) (ho
     rw [P.tbl] at this
     exact this
   rw [P.btv] at hloop
-  obtain ⟨hB, hM, hV, hU⟩ := b2mLoop_bdd_sound dvars m2 P.inv.inv P.off P.zone p.rm ord
+  obtain ⟨hB, hM, hV, hU⟩ := b2mLoop_bdd_sound dvars m2 P.inv.inv P.zone p.rm ord
     (fun u hu _ => (hordm u).mp hu) out mb' hloop
   obtain ⟨hk1, hk2⟩ := b2mLoop_keys p.rm (b2mBitToVar dvars) ord _ _ m2 out mb' hloop
   refine ⟨hM, hV, hB.inv, hB.zone, hU, ?_, ?_, ?_⟩
   · intro u hu
-    obtain ⟨hm2, hden⟩ := P.held u hu
-    refine ⟨hB.ext.mem hm2, ?_⟩
-    intro a
-    rw [← hden a]
-    unfold denN
-    rw [den_ext hB.ext hW2 (u : Int) _ hm2, lift_congr hB.frame.l2v]
+    have hmb : mb' = m2 := hB.eq
+    subst hmb
+    exact P.held u hu
   · apply hk1; simp [List.lookup_cons]
   · intro u hu
     have hmemu : m2.tbl.Mem (u : Int) := (P.held u hu).1
